@@ -58,6 +58,15 @@ CHECKS["C06"] = dict(
     note=E2NOTE,
 )
 
+CHECKS["C11"] = dict(
+    engine=E2, category="model_checking", design="§3 C11",
+    technique="symbolic execution of blackbird.loads on faulty skeletons (fault values symbolic); z3 decides whether any value lets a program be returned / the wrong exception surface",
+    text="One fault (undefined name, reserved name, non-integer mode, complex into int/float, loop value of the wrong type) is injected at every position among "
+         "valid statements and in every syntactic slot; fault values are solver variables, so 'no program is returned' is decided for every value (integral floats, "
+         "zero imaginary parts, ...). Bounded by the generator.",
+    note=E2NOTE,
+)
+
 NOT_YET = "check not built yet in this round (see DESIGN.md §3 for the plan); not claimed"
 
 
